@@ -93,11 +93,84 @@ def _tailify(stmts: List[ast.stmt], ret: str) -> List[ast.stmt]:
                 out.append(new)
                 return out
             raise _CannotInline("return in a branch that does not always exit")
+        if isinstance(st, ast.Try) and not _has_return(st.finalbody) and (not rest or (
+                _always_exits(st.body + st.orelse) and all(_always_exits(h.body) for h in st.handlers))):
+            # returns inside try/except in tail position: the returned expression is still evaluated inside the try
+            new = ast.copy_location(ast.Try(
+                body=_tailify(st.body, ret) if not st.orelse else list(st.body),
+                handlers=[ast.copy_location(ast.ExceptHandler(type=h.type, name=h.name, body=_tailify(h.body, ret)), h) for h in st.handlers],
+                orelse=_tailify(st.orelse, ret) if st.orelse else [],
+                finalbody=list(st.finalbody)), st)
+            if st.orelse and _has_return(st.body):
+                raise _CannotInline("return in a try body that has an else clause")
+            out.append(new)
+            return out
+        if isinstance(st, (ast.For, ast.While)) and not st.orelse and not _has_own_break(st):
+            # `for ..: .. return a ..` followed by `rest`: the return becomes `ret = a; break`, the code after the loop
+            # runs exactly when the loop was not left that way: it is the loop's else clause
+            body = _returns_to_breaks(st.body, ret)
+            tail = _tailify(rest, ret) if rest else []
+            if isinstance(st, ast.For):
+                new = ast.For(target=st.target, iter=st.iter, body=body, orelse=tail, type_comment=None)
+            else:
+                new = ast.While(test=st.test, body=body, orelse=tail)
+            out.append(ast.copy_location(new, st))
+            ast.fix_missing_locations(new)
+            return out
         if isinstance(st, ast.With) and not rest:
             new = ast.copy_location(ast.With(items=st.items, body=_tailify(st.body, ret)), st)
             out.append(new)
             return out
         raise _CannotInline(f"return inside {type(st).__name__}")
+    return out
+
+
+def _has_own_break(loop) -> bool:
+    def walk(sts):
+        for x in sts:
+            if isinstance(x, ast.Break):
+                return True
+            if isinstance(x, (ast.For, ast.While, ast.AsyncFor, ast.FunctionDef, ast.AsyncFunctionDef, ast.ClassDef)):
+                continue
+            for f in ("body", "orelse", "finalbody"):
+                if walk(getattr(x, f, []) or []):
+                    return True
+            for h in getattr(x, "handlers", []) or []:
+                if walk(h.body):
+                    return True
+        return False
+    return walk(loop.body)
+
+
+class _RetToBreak(ast.NodeTransformer):
+    def __init__(self, ret):
+        self.ret = ret
+
+    def visit_Return(self, node):
+        val = node.value if node.value is not None else ast.Constant(value=None)
+        a = ast.copy_location(ast.Assign(targets=[ast.Name(id=self.ret, ctx=ast.Store())], value=val, lineno=node.lineno), node)
+        return [a, ast.copy_location(ast.Break(), node)]
+
+    def _nested(self, node):
+        if _has_return([node]):
+            raise _CannotInline("return inside a nested loop")
+        return node
+
+    visit_For = visit_While = visit_AsyncFor = _nested
+
+    def visit_FunctionDef(self, node):
+        return node
+
+    visit_AsyncFunctionDef = visit_Lambda = visit_FunctionDef
+
+
+def _returns_to_breaks(stmts, ret):
+    import copy
+    out = []
+    tr = _RetToBreak(ret)
+    for st in stmts:
+        r = tr.visit(copy.deepcopy(st))
+        out.extend(r if isinstance(r, list) else [r])
     return out
 
 
@@ -118,6 +191,17 @@ class _Renamer(ast.NodeTransformer):
         self.generic_visit(node)
         if node.name and node.name in self.mapping:
             node.name = self.mapping[node.name]
+        return node
+
+
+class _SubstName(ast.NodeTransformer):
+    """replace loads of a name by a (constant) expression"""
+    def __init__(self, mapping):
+        self.mapping = mapping
+
+    def visit_Name(self, node):
+        if isinstance(node.ctx, ast.Load) and node.id in self.mapping:
+            return ast.copy_location(copy.deepcopy(self.mapping[node.id]), node)
         return node
 
 
@@ -164,11 +248,37 @@ class Normalizer:
 
     def _stmt(self, st, cls, depth) -> List[ast.stmt]:
         pre: List[ast.stmt] = []
+        # idiom: `x[:0] = [a, b]` / `x[0:0] = [a]` is x.insert(0, ...) (front insertion by slice assignment)
+        if isinstance(st, ast.Assign) and len(st.targets) == 1 and isinstance(st.targets[0], ast.Subscript) \
+                and isinstance(st.targets[0].slice, ast.Slice) and isinstance(st.value, ast.List) and 0 < len(st.value.elts) <= 4 \
+                and not any(isinstance(e, ast.Starred) for e in st.value.elts):
+            sl = st.targets[0].slice
+            zero = lambda n: isinstance(n, ast.Constant) and n.value == 0 and not isinstance(n.value, bool)   # noqa: E731
+            if sl.step is None and (sl.lower is None or zero(sl.lower)) and zero(sl.upper):
+                out = []
+                for e in reversed(st.value.elts):
+                    call = ast.Call(func=ast.Attribute(value=copy.deepcopy(st.targets[0].value), attr="insert", ctx=ast.Load()),
+                                    args=[ast.Constant(value=0), e], keywords=[])
+                    ex = ast.copy_location(ast.Expr(value=call), st)
+                    ast.fix_missing_locations(ex)
+                    out.extend(self._stmt(ex, cls, depth))
+                return out
         if isinstance(st, ast.If):
             st.test = self._hoist(st.test, pre, cls, depth, st)
             st.body = self._block(st.body, cls, depth)
             st.orelse = self._block(st.orelse, cls, depth)
             return pre + [st]
+        if isinstance(st, ast.For) and isinstance(st.iter, (ast.Tuple, ast.List)) and isinstance(st.target, ast.Name) \
+                and 0 < len(st.iter.elts) <= 6 and all(isinstance(x, ast.Constant) for x in st.iter.elts) and not st.orelse \
+                and len(st.body) <= 3 and not any(isinstance(n, (ast.Break, ast.Continue, ast.Return, ast.For, ast.While)) for b in st.body for n in ast.walk(b)) \
+                and not any(isinstance(n, ast.Name) and n.id == st.target.id and isinstance(n.ctx, (ast.Store, ast.Del)) for b in st.body for n in ast.walk(b)):
+            # a loop over a literal tuple of constants is its body written out once per constant
+            out = []
+            for c in st.iter.elts:
+                for b in st.body:
+                    nb = _SubstName({st.target.id: c}).visit(copy.deepcopy(b))
+                    out.extend(self._stmt(nb, cls, depth))
+            return out
         if isinstance(st, (ast.For, ast.AsyncFor)):
             if self.lower_ifexp and isinstance(st.iter, ast.IfExp):
                 tmp = self._fresh("it")
@@ -498,9 +608,14 @@ def make_resolver(repo, module, private_only: bool = True, also: Optional[Set[st
                 return None
             return f"{k.name}.{fn.name}", fn, cls, True
         if isinstance(f, ast.Name):
-            if not wanted(f.id):
-                return None
             mod = module
+            if not wanted(f.id):
+                # a public module function that is one `return <expression>` is a named expression: dissolve it too
+                fn0 = mod.functions.get(f.id)
+                body0 = A.strip_docstring(fn0.body) if fn0 is not None else []
+                if not (len(body0) == 1 and isinstance(body0[0], ast.Return) and body0[0].value is not None
+                        and not fn0.decorator_list and not fn0.args.vararg and not fn0.args.kwarg):
+                    return None
             if f.id in mod.functions:
                 return f"{mod.name.split('.')[-1]}.{f.id}", mod.functions[f.id], None, None
             tgt = mod.imports.get(f.id)
